@@ -1,0 +1,167 @@
+//! Verification hooks -- only compiled with the cargo feature `verif` (off by default).
+//!
+//! Provides:
+//!   - [atomic]: `#[repr(transparent)]` wrappers over the std atomics that report every operation
+//!     (before & after) to a per-thread installable [Hook], so an external harness may own the schedule;
+//!   - [yield_point()]: an explicit scheduling point for plain (non-atomic) shared accesses;
+//!   - [sequence_origin()]: a per-thread value consulted by the ring buffer constructors, so a fresh
+//!     container may start with its sequence counters anywhere (e.g. just below the u32 wrap).
+//!
+//! With no hook installed on the calling thread, everything here is a pass-through.
+
+use std::cell::{Cell, RefCell};
+use std::sync::Arc;
+
+/// The kind of the (about to be / just) executed operation
+#[derive(Debug, Clone, Copy, PartialEq, Eq)]
+pub enum OpKind {
+    Load,
+    Store,
+    Swap,
+    FetchAdd,
+    FetchSub,
+    CompareExchange,
+    /// explicit [yield_point()]
+    Yield,
+}
+
+/// What a harness implements to observe / control the execution.\
+/// `before()` is called immediately before the operation is performed (the calling thread may be descheduled there);
+/// `after()` is called right after it, informing if memory was changed (`wrote`) and if the operation "failed"
+/// (compare-exchange returned `Err` or a swap left the value unchanged).
+pub trait Hook: Send + Sync {
+    fn before(&self, addr: usize, kind: OpKind, tag: &'static str);
+    fn after(&self, addr: usize, kind: OpKind, wrote: bool, failed: bool);
+}
+
+thread_local! {
+    static HOOK:            RefCell<Option<Arc<dyn Hook>>> = const { RefCell::new(None) };
+    static SEQUENCE_ORIGIN: Cell<u32>                      = const { Cell::new(0) };
+}
+
+/// Installs (or removes, if `None`) the hook for the calling thread
+pub fn install_hook(hook: Option<Arc<dyn Hook>>) {
+    let _ = HOOK.try_with(|h| *h.borrow_mut() = hook);
+}
+
+#[inline(always)]
+fn current_hook() -> Option<Arc<dyn Hook>> {
+    HOOK.try_with(|h| h.borrow().clone()).unwrap_or(None)
+}
+
+#[inline(always)]
+pub(crate) fn before(addr: usize, kind: OpKind) -> Option<Arc<dyn Hook>> {
+    let hook = current_hook();
+    if let Some(hook) = &hook {
+        hook.before(addr, kind, "");
+    }
+    hook
+}
+
+/// Scheduling point for plain (non-atomic) shared accesses
+#[inline(always)]
+pub fn yield_point(tag: &'static str) {
+    if let Some(hook) = current_hook() {
+        hook.before(0, OpKind::Yield, tag);
+        hook.after(0, OpKind::Yield, false, false);
+    }
+}
+
+/// The value the ring buffers' sequence counters start with, when constructed by the calling thread (default: 0)
+#[inline(always)]
+pub fn sequence_origin() -> u32 {
+    SEQUENCE_ORIGIN.try_with(|o| o.get()).unwrap_or(0)
+}
+
+/// See [sequence_origin()]
+pub fn set_sequence_origin(origin: u32) {
+    let _ = SEQUENCE_ORIGIN.try_with(|o| o.set(origin));
+}
+
+pub mod atomic {
+    //! Drop-in replacements for the std atomics used by this crate -- same layout, same semantics,
+    //! plus reporting to the installed [super::Hook] (if any).\
+    //! `compare_exchange_weak()` is executed as the strong version: it never fails spuriously.
+
+    use super::{before, OpKind};
+    use std::sync::atomic::Ordering;
+
+    macro_rules! shim_common {
+        ($name: ident, $std: ty, $prim: ty) => {
+            #[repr(transparent)]
+            #[derive(Debug, Default)]
+            pub struct $name(pub $std);
+
+            impl $name {
+                #[inline(always)]
+                pub const fn new(v: $prim) -> Self {
+                    Self(<$std>::new(v))
+                }
+                #[inline(always)]
+                fn addr(&self) -> usize {
+                    self as *const Self as usize
+                }
+                #[inline(always)]
+                pub fn load(&self, order: Ordering) -> $prim {
+                    let hook = before(self.addr(), OpKind::Load);
+                    let v = self.0.load(order);
+                    if let Some(hook) = hook { hook.after(self.addr(), OpKind::Load, false, false); }
+                    v
+                }
+                #[inline(always)]
+                pub fn store(&self, v: $prim, order: Ordering) {
+                    let hook = before(self.addr(), OpKind::Store);
+                    self.0.store(v, order);
+                    if let Some(hook) = hook { hook.after(self.addr(), OpKind::Store, true, false); }
+                }
+                #[inline(always)]
+                pub fn swap(&self, v: $prim, order: Ordering) -> $prim {
+                    let hook = before(self.addr(), OpKind::Swap);
+                    let old = self.0.swap(v, order);
+                    if let Some(hook) = hook { hook.after(self.addr(), OpKind::Swap, old != v, old == v); }
+                    old
+                }
+                #[inline(always)]
+                pub fn compare_exchange(&self, current: $prim, new: $prim, success: Ordering, failure: Ordering) -> Result<$prim, $prim> {
+                    let hook = before(self.addr(), OpKind::CompareExchange);
+                    let r = self.0.compare_exchange(current, new, success, failure);
+                    if let Some(hook) = hook { hook.after(self.addr(), OpKind::CompareExchange, r.is_ok(), r.is_err()); }
+                    r
+                }
+                #[inline(always)]
+                pub fn compare_exchange_weak(&self, current: $prim, new: $prim, success: Ordering, failure: Ordering) -> Result<$prim, $prim> {
+                    self.compare_exchange(current, new, success, failure)
+                }
+            }
+        }
+    }
+
+    macro_rules! shim_arith {
+        ($name: ident, $prim: ty) => {
+            impl $name {
+                #[inline(always)]
+                pub fn fetch_add(&self, v: $prim, order: Ordering) -> $prim {
+                    let hook = before(self.addr(), OpKind::FetchAdd);
+                    let old = self.0.fetch_add(v, order);
+                    if let Some(hook) = hook { hook.after(self.addr(), OpKind::FetchAdd, true, false); }
+                    old
+                }
+                #[inline(always)]
+                pub fn fetch_sub(&self, v: $prim, order: Ordering) -> $prim {
+                    let hook = before(self.addr(), OpKind::FetchSub);
+                    let old = self.0.fetch_sub(v, order);
+                    if let Some(hook) = hook { hook.after(self.addr(), OpKind::FetchSub, true, false); }
+                    old
+                }
+            }
+        }
+    }
+
+    shim_common!(AtomicBool,  std::sync::atomic::AtomicBool,  bool);
+    shim_common!(AtomicU32,   std::sync::atomic::AtomicU32,   u32);
+    shim_common!(AtomicU64,   std::sync::atomic::AtomicU64,   u64);
+    shim_common!(AtomicUsize, std::sync::atomic::AtomicUsize, usize);
+    shim_arith!(AtomicU32,   u32);
+    shim_arith!(AtomicU64,   u64);
+    shim_arith!(AtomicUsize, usize);
+}
